@@ -82,6 +82,7 @@ type state struct {
 	evaluations int64
 	hashes      map[uint64]struct{}
 	hashCapped  bool
+	counted     int64
 	labels      map[string]int64
 	excluded    map[string]int64
 	samples     []json.RawMessage
@@ -135,8 +136,14 @@ func envInt(name string, def int) int {
 	return def
 }
 
-func Shard() int   { return envInt("VERIF_SHARD", 0) }
-func NShards() int { n := envInt("VERIF_NSHARDS", 1); if n < 1 { n = 1 }; return n }
+func Shard() int { return envInt("VERIF_SHARD", 0) }
+func NShards() int {
+	n := envInt("VERIF_NSHARDS", 1)
+	if n < 1 {
+		n = 1
+	}
+	return n
+}
 
 func Scale() float64 {
 	if s := os.Getenv("VERIF_SCALE"); s != "" {
@@ -240,6 +247,14 @@ func NonTrivial(h uint64) {
 	} else {
 		st.hashCapped = true
 	}
+	st.mu.Unlock()
+}
+
+// NonTrivialCounted adds n cases that are distinct by construction (disjoint
+// parts of an exhaustive enumeration) without hashing them.
+func NonTrivialCounted(n int) {
+	st.mu.Lock()
+	st.counted += int64(n)
 	st.mu.Unlock()
 }
 
@@ -590,22 +605,23 @@ func flush() {
 	st.mu.Lock()
 	defer st.mu.Unlock()
 	doc := map[string]any{
-		"property":     st.property,
-		"shard":        Shard(),
-		"seed":         Seed(),
-		"tier":         Tier(),
-		"evaluations":  st.evaluations,
-		"distinct":     len(st.hashes),
-		"hash_capped":  st.hashCapped,
-		"labels":       st.labels,
-		"excluded":     st.excluded,
-		"samples":      st.samples,
-		"violations":   st.violations,
-		"known":        st.known,
-		"notes":        st.notes,
-		"checks":       st.checks,
-		"exhaustive":   st.exhaustive,
-		"wall_s":       time.Since(st.start).Seconds(),
+		"property":    st.property,
+		"shard":       Shard(),
+		"seed":        Seed(),
+		"tier":        Tier(),
+		"evaluations": st.evaluations,
+		"distinct":    len(st.hashes),
+		"counted":     st.counted,
+		"hash_capped": st.hashCapped,
+		"labels":      st.labels,
+		"excluded":    st.excluded,
+		"samples":     st.samples,
+		"violations":  st.violations,
+		"known":       st.known,
+		"notes":       st.notes,
+		"checks":      st.checks,
+		"exhaustive":  st.exhaustive,
+		"wall_s":      time.Since(st.start).Seconds(),
 	}
 	b, _ := json.Marshal(doc)
 	tmp := p + ".tmp"
